@@ -242,6 +242,12 @@ class ExprMixin:
 
   def binop(self, op, a, b):
     a, b = self.unopt(a), self.unopt(b)
+    if isinstance(a, VVec) or isinstance(b, VVec):          # numpy elementwise / broadcasting
+      xs = a.items if isinstance(a, (VVec, VList, VTuple)) else [a] * len(b.items)
+      ys = b.items if isinstance(b, (VVec, VList, VTuple)) else [b] * len(xs)
+      if len(xs) != len(ys):
+        self.raise_('ValueError', VStr('operands could not be broadcast together'))
+      return VVec([self.binop(op, x, y) for x, y in zip(xs, ys)])
     # sequences
     if isinstance(op, ast.Add):
       if isinstance(a, VTuple) and isinstance(b, VTuple):
@@ -423,6 +429,8 @@ class ExprMixin:
 
   def getitem(self, base, idx):
     base = self.unopt(base)
+    if isinstance(base, VVec):
+      base = VTuple(base.items)
     if isinstance(idx, VSlice):
       return self.getslice(base, idx)
     if isinstance(base, (VTuple, VList)):
@@ -534,7 +542,7 @@ class ExprMixin:
   # ---- comprehensions over concrete iterables ---------------------------------------------
   def iter_concrete(self, v):
     v = self.unopt(v)
-    if isinstance(v, (VTuple, VList)):
+    if isinstance(v, (VTuple, VList, VVec)):
       return list(v.items)
     if isinstance(v, VDict):
       return [VStr(k) if isinstance(k, str) else VInt(k) for k in v.d]
